@@ -99,7 +99,9 @@ func (dr *DialogueRunner) Next(choice int) (*DialogueElement, error) {
 	}
 
 	if dr.isWaitingForChoice() {
-		if statements := dr.lastStatement.ShortcutOptionStatement.Options[choice].Statements; len(statements) != 0 {
+		statements := dr.lastStatement.ShortcutOptionStatement.Options[choice].Statements
+		dr.lastStatement = nil
+		if len(statements) != 0 {
 			dr.statementsToRun.Push(&statementQueue{
 				statements: statements,
 			})
@@ -118,7 +120,6 @@ func (dr *DialogueRunner) Next(choice int) (*DialogueElement, error) {
 		return dr.Next(choice)
 	}
 
-	dr.lastStatement = nextStatement
 	switch {
 	case nextStatement.LineStatement != nil:
 		markupResult, err := dr.textElementsToMarkup(nextStatement.LineStatement.Text.Elements)
@@ -157,6 +158,7 @@ func (dr *DialogueRunner) Next(choice int) (*DialogueElement, error) {
 				Disabled: disabled,
 			})
 		}
+		dr.lastStatement = nextStatement
 		return &DialogueElement{
 			Node:    dr.currentNode,
 			Options: options,
